@@ -212,7 +212,13 @@ def parse_output(out):
     return steps, done
 
 
+_SCALE = [1.0]
+
+
 def close(a, b):
+    """relative 1e-12, plus an absolute term scaled by the largest magnitude that occurred in the
+    interpreter run so far (cancellation: the interpreter adds with Python's compensated sum(),
+    compiled code adds naively, so e.g. (2.5e-07 + 1.0) - 1.0 differs at 1e-17 absolute)."""
     if isinstance(a, (bool, np.bool_)):
         a = float(a)
     if a != a and b != b:
@@ -220,13 +226,67 @@ def close(a, b):
     if a == b:
         return True
     try:
-        return abs(a - b) <= 1e-12 * max(abs(a), abs(b)) + 1e-300
+        return abs(a - b) <= 1e-12 * max(abs(a), abs(b)) + 1e-13 * _SCALE[0] + 1e-300
     except Exception:
         return False
 
 
+class ScaleStore(dict):
+    """interpreter context that remembers the largest magnitude ever written"""
+    scale = 1.0
+
+    def __setitem__(self, k, v):
+        try:
+            m = float(np.max(np.abs(v))) if isinstance(v, np.ndarray) else abs(float(v))
+            if m == m and m > self.scale and m < 1e300:
+                self.scale = m
+        except Exception:
+            pass
+        dict.__setitem__(self, k, v)
+
+
+def const_scale(sc):
+    from simdag.gen.expr import Const
+    m = [1.0]
+
+    def walk(e):
+        if isinstance(e, Const) and not isinstance(e.v, bool):
+            m[0] = max(m[0], abs(float(e.v)))
+        for attr in ("a", "b", "c", "t", "e", "idx"):
+            sub = getattr(e, attr, None)
+            if sub is not None and hasattr(sub, "ev"):
+                walk(sub)
+        for x in getattr(e, "args", []) or []:
+            if hasattr(x, "ev"):
+                walk(x)
+        for _k, x in getattr(e, "kwargs", []) or []:
+            walk(x)
+
+    def ops(os_):
+        for op in os_:
+            if op[0] == "assign":
+                walk(op[3])
+            elif op[0] == "call":
+                walk(op[2])
+            elif op[0] == "yield":
+                walk(op[1])
+                walk(op[3])
+            elif op[0] == "if":
+                walk(op[1][1])
+                ops(op[2])
+                if op[3]:
+                    ops(op[3])
+    for ph in sc.phases:
+        ops(ph.ops)
+    return m[0]
+
+
 def interp_reference(ctx, code, twins, sc, n_runs, has_y):
     it = NumpyInterpreter(code, twins)
+    store = ScaleStore()
+    store.scale = const_scale(sc)
+    it.context = store
+    it.eval_mapper.context = store
     it.set_up(sc.t0, sc.dt0, {k: (v.copy() if isinstance(v, np.ndarray) else v) for k, v in sc.state0.items()})
     ref = []
     last = {}
@@ -259,6 +319,7 @@ def interp_reference(ctx, code, twins, sc, n_runs, has_y):
             if bad or big:
                 raise Discard("ill-defined:magnitude")
         ref.append({"outcome": outcome, "phase": phases_sorted.index(it.next_phase), "store": store,
+                    "scale": it.context.scale,
                     "ret": {c: (x[0].copy(), x[1], x[2]) for c, x in last.items()}})
     return ref
 
@@ -277,6 +338,50 @@ def _collect_tids(sc):
     for ph in sc.phases:
         rec(ph.ops)
     return out
+
+
+def script_reads_abs_array_result(sc):
+    """the script assigns  b <- elementwise_abs(<array>)  and later subscripts b"""
+    from simdag.gen.expr import Call, Sub, Var
+    abs_targets = set()
+    found = [False]
+
+    def walk(e):
+        if isinstance(e, Sub) and e.arr in abs_targets:
+            found[0] = True
+        for attr in ("a", "b", "c", "t", "e", "idx"):
+            sub = getattr(e, attr, None)
+            if sub is not None and hasattr(sub, "ev"):
+                walk(sub)
+        for x in getattr(e, "args", []) or []:
+            if hasattr(x, "ev"):
+                walk(x)
+        for _k, x in getattr(e, "kwargs", []) or []:
+            walk(x)
+
+    def ops(os_):
+        for op in os_:
+            if op[0] == "call":
+                e = op[2]
+                if e.fn == "<builtin>elementwise_abs" and e.args and isinstance(e.args[0], Var) \
+                        and isinstance(sc.types.get(e.args[0].name), tuple):
+                    abs_targets.update(op[1])
+                walk(e)
+            elif op[0] == "assign":
+                walk(op[3])
+                if op[2] is not None:
+                    walk(op[2])
+            elif op[0] == "yield":
+                walk(op[1])
+            elif op[0] == "if":
+                walk(op[1][1])
+                ops(op[2])
+                if op[3]:
+                    ops(op[3])
+    for _ in range(2):          # a second pass catches reads that precede the definition in another phase/step
+        for ph in sc.phases:
+            ops(ph.ops)
+    return found[0]
 
 
 def stmt_for_line(text, lineno):
@@ -301,7 +406,10 @@ def classify_sanitizer(stderr, text):
                "heap-buffer-overflow": "out-of-bounds"}.get(kind, "asan:" + kind)
         fr = re.search(r"m\.f90:(\d+)", stderr)
         site = stmt_for_line(text, int(fr.group(1))) if fr else "?"
-        return cls, _site_kind(site), "%s at [%s]" % (kind, site)
+        sk = _site_kind(site)
+        if cls == "out-of-bounds" and fr and reads_abs_array_result(text, int(fr.group(1)), site):
+            sk = "element-of-elementwise_abs-array-result"
+        return cls, sk, "%s at [%s]" % (kind, site)
     if "runtime error:" in stderr:
         m = re.search(r"m\.f90:(\d+):\d+: runtime error: (.*)", stderr)
         if m:
@@ -324,6 +432,20 @@ def classify_sanitizer(stderr, text):
         m = re.search(r"leaked reference in (\S+)", stderr)
         return "shutdown-reported-leak", m.group(1) if m else "?", stderr.strip()[:200]
     return None
+
+
+def reads_abs_array_result(text, lineno, stmt_text):
+    """does the statement subscript an array whose latest definition above it is
+    '<name> <- <builtin>elementwise_abs(<array>)'?  (known finding: that result is 1-based)"""
+    lines = text.split("\n")[:lineno]
+    for name in set(re.findall(r"([A-Za-z_]\w*)\[", stmt_text)):
+        for ln in reversed(lines):
+            t_ = ln.strip()
+            if t_.startswith("! {{{ %s <- " % name) or t_.startswith("! {{{ %s[" % name):
+                if t_.startswith("! {{{ %s <- <builtin>elementwise_abs(" % name):
+                    return True
+                break
+    return False
 
 
 def _site_kind(site):
@@ -458,7 +580,13 @@ def run_fortran_engine(ctx, prop):
                                     "exit status %d, %d of %d steps printed, stderr: %s"
                                     % (q.returncode, len(steps), n_runs, _trim(stderr)),
                                     site="exit" if q.returncode != 0 else "stderr")
-            compare_steps(ctx, steps, ref, sc, has_y, set(pers))
+            try:
+                compare_steps(ctx, steps, ref, sc, has_y, set(pers))
+            except Violation as v:
+                if v.cls in ("state-mismatch", "ret-mismatch") and script_reads_abs_array_result(sc):
+                    raise Violation(v.cls, v.detail + "  [program reads an element of an elementwise_abs(array) "
+                                    "result]", site="after-element-of-elementwise_abs-array-result")
+                raise
     finally:
         shutil.rmtree(d, ignore_errors=True)
     ctx.count("probe:step_failed", outcomes.count("failed"))
@@ -511,6 +639,7 @@ def compare_steps(ctx, steps, ref, sc, has_y, pers):
         if want["outcome"] == "raised":
             break
         where = "after run call %d (interpreter step %s)" % (i + 1, want["outcome"])
+        _SCALE[0] = want.get("scale", 1.0)
         if got.get("phase") != want["phase"]:
             raise Violation("next-phase-mismatch", "%s: next phase index %r, interpreter %r"
                             % (where, got.get("phase"), want["phase"]), site=want["outcome"])
